@@ -18,14 +18,22 @@ def check(ctx):
     run.rule('R23', 'MODE-SIGNATURE(sql): the existing table is deleted only when mode == rewrite and it exists; the table is created only '
                     'when it does not exist (after a possible delete); update keys are passed only in update mode, defaulting to the '
                     'primary key; resources that are not mapped to a table pass through untouched')
-    en = Enumerator(where=pr.qualname, relevant=lambda n: isinstance(n, ast.Call) and isinstance(n.func, ast.Attribute)
-                    and n.func.attr in ('delete', 'create', 'describe', 'write', 'get'))
+    # names handed to the storage writer: an assignment to one of them is an event of the path too (a branch that only rebinds the
+    # keys must not be merged away)
+    wnames = {pseudo(k.value) for c in ast.walk(pr.node) if isinstance(c, ast.Call) and u(c.func) == 'storage.write'
+              for k in c.keywords if isinstance(k.value, ast.Name)}
+    en = Enumerator(where=pr.qualname, relevant=lambda n: (isinstance(n, ast.Call) and isinstance(n.func, ast.Attribute)
+                                                           and n.func.attr in ('delete', 'create', 'describe', 'write', 'get')) or
+                    (isinstance(n, ast.Assign) and any(pseudo(t) in wnames for t in n.targets)))
     paths = en.paths(pr.node.body)
     n = 0
     fallback_seen = False
     for p in paths:
         nodes = list(path_nodes(p))
-        g = {u(t): pol for t, pol in [norm_compare(t, pol) for t, pol in p.guards()]}
+        from sa.pathvals import PathValues as _PV, flag_resolved_guards as _frg
+        pv_ = _PV(p)
+        # guards with the locals they test resolved (`created = '' not in storage.buckets; if created:` is the existence test)
+        g = {u(t): pol for t, pol in [norm_compare(t, pol) for t, pol in list(p.guards()) + list(_frg(p))]}
         mapped = g.get('resource_name in self.converted_resources')
         if mapped is None:
             raise AnalysisError('SQLDumper.process_resource: mapping test not found')
@@ -63,6 +71,15 @@ def check(ctx):
             nonnull = [x for x in assigned if not (isinstance(x.value, ast.Constant) and x.value.value is None)]
             run.check(bool(nonnull) == bool(update), 'R23', pr.where, pr.qualname, 'update_keys set iff mode == update: ' + str(update),
                       'rows are matched by key in a mode other than update, or update mode writes without keys')
+            # ... and what reaches the writer is the value the variable holds at the end of the path
+            final_ = pv_.value('update_keys')
+            if final_ is not None:
+                is_none_ = isinstance(final_, ast.Constant) and final_.value is None
+                run.check(is_none_ != bool(update), 'R23', pr.where, pr.qualname,
+                          'update_keys handed to the writer are non-None iff mode == update: ' + str(update),
+                          'on this path the keys that reach storage.write are %s although mode == update is %s: an update dump without '
+                          'keys inserts every row (repeated keys are not collapsed, existing rows not matched)' % (u(final_), bool(update)),
+                          path=p.describe())
             if update:
                 # the key variable may carry another name inside an inlined helper: any `<k> is None` test on a name that was
                 # assigned from <resource config>.get('update_keys')
